@@ -11,6 +11,9 @@ package gostatsd
 //@   trusted
 //@   modifies everything
 //@   preserves lexer.Lexer, pool.MetricPool, statsd.DatagramParser
+// A completion callback of a flush (gostatsd.SendCallback) may do anything.
+//@ functype SendCallback(errs)
+//@   modifies everything
 // EstimatedTags is a getter (assumed not to modify anything).
 //@ func (PipelineHandler).EstimatedTags
 //@   trusted
